@@ -60,6 +60,24 @@ pub fn vx_notify_all(txs: &mut HashMap<u64, oneshot::Sender<()>>)
     ensures final(txs)@.len() == 0
 { unimplemented!() }
 // TRUSTED: u64 keys obey the hash-map key model (vstd states it for the primitive integer types)
+/// HashMap::get_mut touches no other key (from the frame clause of its trusted contract)
+pub proof fn lemma_get_mut_dom(o: Map<ActionID, TableLookup>, n: Map<ActionID, TableLookup>, k: ActionID)
+    requires obeys_key_model::<ActionID>(), o.contains_key(k), n.contains_key(k),
+        forall|rest: Map<ActionID, TableLookup>| #[trigger] borrowed_key_removed(o, rest, &k) ==> borrowed_key_removed(n, rest, &k),
+    ensures forall|kk: ActionID| kk != k ==> (#[trigger] n.contains_key(kk) == o.contains_key(kk))
+{
+    broadcast use vstd::std_specs::hash::group_hash_axioms;
+    assert(borrowed_key_removed(o, o.remove(k), &k));
+    assert(n.remove(k) == o.remove(k));
+    assert forall|kk: ActionID| kk != k implies (#[trigger] n.contains_key(kk) == o.contains_key(kk)) by {
+        assert(n.remove(k).contains_key(kk) == o.remove(k).contains_key(kk));
+    }
+}
+/// what a call of handle_lookup_completed that a change added or moved is given as its reason: some search about which nothing is known,
+/// so the precondition "a search is closed only when it reports Completed" has to be proved at that call
+pub uninterp spec fn vx_some_search() -> TableLookup;
+//@ghost_default handle_lookup_completed 1 : Tracked(tr), Ghost(Some(vx_some_search()))
+pub open spec fn aid_of(t: TransactionID) -> ActionID { ActionID { action_id: tid_value(t) >> 24 } }
 /// C15: the waiters' keys are below the next key to be handed out, so a new waiter never takes the key of one still waiting
 pub open spec fn waiters_ok(h: DhtHandler) -> bool {
     forall|k: u64| #[trigger] h.bootstrap_txs@.contains_key(k) ==> k < h.next_bootstrap_txs_id
@@ -520,7 +538,7 @@ impl DhtHandler {
     }
 //@end
 
-//@begin fn src/handler.rs impl:DhtHandler handle_incoming_response rules=R-deasync props=C05,C12
+//@begin fn src/handler.rs impl:DhtHandler handle_incoming_response rules=R-deasync props=C05,C12,C04
     pub fn handle_incoming_response(
         &mut self,
         trans_id: TransactionID,
@@ -562,7 +580,7 @@ impl DhtHandler {
                 
             {
                 ActionStatus::Ongoing => (),
-                ActionStatus::Completed => self.handle_lookup_completed(trans_id, Tracked(tr)),
+                ActionStatus::Completed => self.handle_lookup_completed(trans_id, Tracked(tr), Ghost(Some(*lookup))),
             }
         } else if self.refresh.action_id() == trans_id.action_id() {
             self.routing_table.lock().unwrap().add_nodes(node, nodes, Tracked(tr));
@@ -574,12 +592,17 @@ impl DhtHandler {
     }
 //@end
 
-//@begin fn src/handler.rs impl:DhtHandler handle_lookup_completed rules=R-deasync props=C05,C12
-    pub fn handle_lookup_completed(&mut self, trans_id: TransactionID, Tracked(tr): Tracked<&mut Trace>)
+//@begin fn src/handler.rs impl:DhtHandler handle_lookup_completed rules=R-deasync props=C05,C12,C04
+    pub fn handle_lookup_completed(&mut self, trans_id: TransactionID, Tracked(tr): Tracked<&mut Trace>, Ghost(reported_by): Ghost<Option<TableLookup>>)
+        // C04: a search is closed because its end-game timeout fired (None) or because it reported Completed (Some(the search))
+        requires reported_by is Some ==> status_of(reported_by->0) == ActionStatus::Completed, // @C04.a_search_is_closed_only_when_it_reports_completed
         ensures final(self).active_stores == old(self).active_stores, final(self).token_store == old(self).token_store,
             final(self).socket == old(self).socket, final(self).this_node_id == old(self).this_node_id, final(self).read_only == old(self).read_only,
             final(self).refresh == old(self).refresh, final(self).timer == old(self).timer,
             only_requests_and_yields(old(tr).ev, final(tr).ev), // @C05.search_completion_sends_only_queries
+            // C04: the finished search is dropped (dropping it closes its stream); every other search stays
+            !final(self).lookups@.contains_key(aid_of(trans_id)), // @C04.a_finished_search_is_dropped
+            forall|a: ActionID| a != aid_of(trans_id) ==> (#[trigger] final(self).lookups@.contains_key(a) == old(self).lookups@.contains_key(a)), // @C04.finishing_a_search_closes_no_other_search
     {
         broadcast use vstd::std_specs::hash::group_hash_axioms, actionid_key_model;
         let mut lookup = if let Some(lookup) = self.lookups.remove(&trans_id.action_id()) {
@@ -709,7 +732,7 @@ impl DhtHandler {
     }
 //@end
 
-//@begin fn src/handler.rs impl:DhtHandler handle_start_lookup rules=R-deasync props=C16
+//@begin fn src/handler.rs impl:DhtHandler handle_start_lookup rules=R-deasync props=C16,C04
     pub fn handle_start_lookup(&mut self, lookup: StartLookup, Tracked(tr): Tracked<&mut Trace>)
         requires old(self).hinv(),
         ensures final(self).hinv(), final(self).refresh == old(self).refresh, no_new_refresh(old(self).timer, final(self).timer),
@@ -718,7 +741,7 @@ impl DhtHandler {
             !old(self).initial_bootstrap_done && !old(self).spec_bootstrapped() ==> final(tr).ev == old(tr).ev && final(self).pending_lookups@ == old(self).pending_lookups@.push(lookup), // @C16.queued_before_initial_bootstrap
             // afterwards it is started at once
             old(self).initial_bootstrap_done || old(self).spec_bootstrapped() ==> starts(final(tr).ev) == starts(old(tr).ev).push((lookup.info_hash, lookup.announce))
-                && final(self).pending_lookups@ == old(self).pending_lookups@, // @C16.started_immediately_after_bootstrap
+                && final(self).pending_lookups@ == old(self).pending_lookups@, // @C16.started_immediately_after_bootstrap @C04.a_search_is_never_parked_after_the_initial_bootstrap
             no_replies(old(tr).ev, final(tr).ev),
     {
         // Queue the lookup if the initial bootstrap has not finished yet, it is started once it does.
@@ -731,7 +754,7 @@ impl DhtHandler {
     }
 //@end
 
-//@begin fn src/handler.rs impl:DhtHandler start_lookup rules=R-deasync props=C16
+//@begin fn src/handler.rs impl:DhtHandler start_lookup rules=R-deasync props=C16,C04
     pub fn start_lookup(&mut self, lookup: StartLookup, Tracked(tr): Tracked<&mut Trace>)
         requires old(self).hinv(),
         ensures final(self).hinv(), final(self).refresh == old(self).refresh, no_new_refresh(old(self).timer, final(self).timer),
@@ -880,14 +903,16 @@ impl DhtHandler {
     }
 //@end
 
-//@begin fn src/handler.rs impl:DhtHandler handle_check_lookup_timeout rules=R-deasync props=C18,C05
+//@begin fn src/handler.rs impl:DhtHandler handle_check_lookup_timeout rules=R-deasync props=C18,C05,C04
     pub fn handle_check_lookup_timeout(&mut self, trans_id: TransactionID, Tracked(tr): Tracked<&mut Trace>)
         requires old(self).hinv(),
         ensures final(self).hinv(), final(self).refresh == old(self).refresh,
             no_new_refresh(old(self).timer, final(self).timer),
             only_requests_and_yields(old(tr).ev, final(tr).ev),
+            forall|a: ActionID| a != aid_of(trans_id) ==> (#[trigger] final(self).lookups@.contains_key(a) == old(self).lookups@.contains_key(a)), // @C04.a_query_timeout_closes_no_other_search
     {
         broadcast use vstd::std_specs::hash::group_hash_axioms, actionid_key_model;
+        let ghost pre = self.lookups@;
         let lookup = if let Some(lookup) = self.lookups.get_mut(&trans_id.action_id()) {
             lookup
         } else {
@@ -898,20 +923,24 @@ impl DhtHandler {
             .recv_timeout(&trans_id, &self.socket, &mut self.timer, Tracked(tr))
             ;
 
+        let ghost after = *lookup;
+        proof { lemma_get_mut_dom(pre, self.lookups@, aid_of(trans_id)); }
         match lookup_status {
             ActionStatus::Ongoing => (),
-            ActionStatus::Completed => self.handle_lookup_completed(trans_id, Tracked(tr)),
+            ActionStatus::Completed => self.handle_lookup_completed(trans_id, Tracked(tr), Ghost(Some(after))),
         }
     }
 //@end
 
-//@begin fn src/handler.rs impl:DhtHandler handle_check_lookup_endgame rules=R-deasync props=C18,C05
+//@begin fn src/handler.rs impl:DhtHandler handle_check_lookup_endgame rules=R-deasync props=C18,C05,C04
     pub fn handle_check_lookup_endgame(&mut self, trans_id: TransactionID, Tracked(tr): Tracked<&mut Trace>)
         requires old(self).hinv(),
         ensures final(self).hinv(), final(self).refresh == old(self).refresh, final(self).timer == old(self).timer,
             only_requests_and_yields(old(tr).ev, final(tr).ev),
+            !final(self).lookups@.contains_key(aid_of(trans_id)), // @C04.the_end_game_timeout_closes_the_search
+            forall|a: ActionID| a != aid_of(trans_id) ==> (#[trigger] final(self).lookups@.contains_key(a) == old(self).lookups@.contains_key(a)), // @C04.finishing_a_search_closes_no_other_search
     {
-        self.handle_lookup_completed(trans_id, Tracked(tr))
+        self.handle_lookup_completed(trans_id, Tracked(tr), Ghost(None))
     }
 //@end
 }
